@@ -3,8 +3,15 @@
 use crate::engine::{self, Property, RunArgs};
 use std::path::Path;
 
+pub mod textlevel;
 pub mod util;
 
+pub mod c03;
+pub mod c06;
+pub mod c07;
+pub mod c10;
+pub mod c11;
+pub mod c12;
 pub mod c17;
 pub mod c18;
 pub mod c19;
@@ -18,6 +25,12 @@ fn go<P: Property>(args: &RunArgs, replay: Option<&Path>, strict: bool) -> i32 {
 
 pub fn dispatch(id: &str, args: &RunArgs, replay: Option<&Path>, strict: bool) -> i32 {
     match id {
+        "C03" => go::<c03::P>(args, replay, strict),
+        "C06" => go::<c06::P>(args, replay, strict),
+        "C07" => go::<c07::P>(args, replay, strict),
+        "C10" => go::<c10::P>(args, replay, strict),
+        "C11" => go::<c11::P>(args, replay, strict),
+        "C12" => go::<c12::P>(args, replay, strict),
         "C17" => go::<c17::P>(args, replay, strict),
         "C18" => go::<c18::P>(args, replay, strict),
         "C19" => go::<c19::P>(args, replay, strict),
